@@ -910,7 +910,7 @@ def sp_close(sess):
         await sess.client.close()
         # what is still open at the moment this close() call returns (a close() that returns early leaves the link up)
         sess.obs.marks.setdefault("open_at_close_return", []).append(
-            [c.cid for c in sess.gw.conns if not (c.closed_by_client or c.lost or c.reset or c.eof_sent)])
+            [c.cid for c in sess.gw.conns if not (c.closed_by_client or c.lost or c.reset or (c.eof_sent and c is not sess.gw.conns[-1]))])
         sess.close_returned = True
         sess.obs.marks["close_returned_t"] = sess.loop.time()
         sess.obs.marks["received_at_close_return"] = len(sess.obs.received)
